@@ -13,7 +13,11 @@ typedef int iora_tid;
 #define TP_SELF_TID 1
 typedef struct { size_t n; bool has_self; bool self_joinable; const iora_mutex *guard; } iora_thrmap;
 typedef struct { bool found; } iora_thrit;
-typedef struct { iora_tid id; } iora_thread;
+typedef struct { iora_tid id; bool joinable; bool is_witness; } iora_thread;
+#define iora_thread_DEFAULT ((iora_thread){0, 0, 0})      /* default-constructed std::thread: not joinable */
+typedef struct { size_t idx; } iora_mapit;                 /* position in one traversal of _threads */
+typedef struct { int threadsJoined; bool success; } ShutdownPhase4Result;
+#define ShutdownPhase4Result_DEFAULT ((ShutdownPhase4Result){0, 0})
 typedef struct { bool wasAlreadyShutdown; bool success; } ShutdownPhase1Result;
 #define ShutdownPhase1Result_DEFAULT ((ShutdownPhase1Result){0, 0})              /* ShutdownPhase1Result() : wasAlreadyShutdown(false), success(false) */
 typedef struct { size_t finalActiveCount; size_t finalPendingCount; int drainTimeMs; bool timedOut; bool success; } ShutdownPhase3Result;
@@ -146,8 +150,29 @@ static inline void tp_threads_emplace(ThreadPool *p, iora_thrmap *m, iora_tid id
 #define iora_thrmap_emplace(m, id, t) tp_threads_emplace(self, m, id, t)
 static inline bool tp_thrit_joinable(ThreadPool *p, iora_thrit *it) { (void)it; return p->_threads.self_joinable; }
 static inline void tp_thrit_detach(ThreadPool *p, iora_thrit *it) { (void)it; IORA_ASSERT(p->_threads.self_joinable, "detach of a joinable thread"); p->_threads.self_joinable = 0; }
-static inline iora_thread tp_thread_start(ThreadPool *p) { (void)p; iora_thread t = { nondet_int() }; return t; }        /* std::thread(worker): creation succeeds (trusted) */
+static inline iora_thread tp_thread_start(ThreadPool *p) { (void)p; iora_thread t = { nondet_int(), 1, 0 }; return t; }        /* std::thread(worker): creation succeeds (trusted) */
 static inline iora_tid iora_thread_get_id(const iora_thread *t) { return t->id; }
+
+/* traversal of _threads in shutdownPhase4_JoinThreads. The WITNESS entry (has_self / self_joinable: one arbitrary thread of the map)
+ * sits at an arbitrary position G_wpos of each traversal; the other entries answer joinable() nondeterministically. */
+size_t G_wpos; bool G_last_joinable; int G_thread_budget;
+struct { int erased, joined, detached; bool witness_joined; } JN;
+static inline iora_mapit tp_it_begin(ThreadPool *p) { TP_THR_GUARDED(&p->_threads); iora_mapit it = { 0 }; G_wpos = nondet_size_t(); IORA_ASSUME(!p->_threads.has_self || G_wpos < p->_threads.n); return it; }
+static inline bool tp_it_valid(ThreadPool *p, iora_mapit it) { TP_THR_GUARDED(&p->_threads); return it.idx < p->_threads.n; }
+#define TP_IS_W(p, it) ((p)->_threads.has_self && (it).idx == G_wpos)
+static inline bool tp_entry_joinable(ThreadPool *p, iora_mapit it) { TP_THR_GUARDED(&p->_threads); IORA_ASSERT(it.idx < p->_threads.n, "iterator dereference in range");
+  G_last_joinable = TP_IS_W(p, it) ? p->_threads.self_joinable : nondet_bool(); return G_last_joinable; }
+static inline iora_thread tp_entry_take(ThreadPool *p, iora_mapit it) { TP_THR_GUARDED(&p->_threads); IORA_ASSERT(it.idx < p->_threads.n, "iterator dereference in range");
+  iora_thread t = { nondet_int(), G_last_joinable, TP_IS_W(p, it) }; if (TP_IS_W(p, it)) p->_threads.self_joinable = 0; return t; }
+static inline iora_tid tp_entry_id(ThreadPool *p, iora_mapit it) { TP_THR_GUARDED(&p->_threads); IORA_ASSERT(it.idx < p->_threads.n, "iterator dereference in range"); return nondet_int(); }
+static inline void tp_entry_erase(ThreadPool *p, iora_mapit it) { TP_THR_GUARDED(&p->_threads); IORA_ASSERT(it.idx < p->_threads.n, "erase of a valid iterator");
+  if (TP_IS_W(p, it)) p->_threads.has_self = 0; else if (p->_threads.has_self && it.idx < G_wpos) G_wpos--;
+  p->_threads.n--; IORA_ASSUME(G_thread_budget > 0); G_thread_budget--; JN.erased++; }      /* A: fewer than 2^30 threads over the pool's lifetime */
+static inline void tp_thread_join(ThreadPool *p, iora_thread *t) {
+  IORA_ASSERT(t->joinable, "join() of a joinable thread");
+  IORA_ASSERT(!p->_mutex.held && !p->_configMutex.held, "JN1 join() is called with no pool lock held (the worker needs _mutex to leave its loop)");
+  tp_env_step(p); t->joinable = 0; JN.joined++; if (t->is_witness) JN.witness_joined = 1; }
+static inline void tp_thread_detach(ThreadPool *p, iora_thread *t) { (void)p; IORA_ASSERT(t->joinable, "detach() of a joinable thread"); t->joinable = 0; JN.detached++; }
 
 /* ------------------------------------------------------------------------------------------------ task / handler stubs */
 static inline void tp_task_run(ThreadPool *p, iora_fn task)
@@ -162,19 +187,15 @@ static inline void tp_handler_call(ThreadPool *p, iora_handler h) { (void)h; IOR
 
 /* ------------------------------------------------------------------------------------------------ loop contracts */
 /* worker_step loop 1: the CAS retry loop of the idle-exit decision (no variant: a weak CAS may fail spuriously; termination not decided) */
-#define TP_SHARED_BY_ENV self->_tasks.lo, self->_tasks.hi, self->_tasks.w, self->_shutdown, self->_accepting, self->_lifecycleState, self->_threads.n, \
-   self->_threads.has_self, self->_threads.self_joinable, self->_activeThreads, self->_busyThreads, GW
+/* (whole sub-structs keep the number of assigns targets small: DFCC's inclusion check does not terminate beyond ~30 targets) */
+#define TP_SHARED_BY_ENV self->_tasks, self->_threads, self->_shutdown, self->_accepting, self->_lifecycleState, self->_activeThreads, self->_busyThreads, GW
+#define TP_GUARDS_OK (self->_tasks.guard == &self->_mutex && self->_threads.guard == &self->_mutex)
 #define IORA_LOOP_ThreadPool_worker_step_1 IORA_LC( \
   __CPROVER_assigns(currentExited, claimedExitSlot, self->_threadsExited) \
   __CPROVER_loop_invariant(!claimedExitSlot && currentExited == self->_threadsExited && 0 <= currentExited && currentExited <= self->_threadsCreated && self->_threadsCreated < (1 << 30)))
 
-#define TP_LOOP_ENV_ASSIGNS TP_SHARED_BY_ENV, self->_tasks.other, self->_mutex.held, ME, LIN, G_rel_hi
-#define TP_LOOP_ENV_INV (!self->_mutex.held && !self->_configMutex.held && TP_INV(self) && TP_NOWRAP(self))
-/* constructor loop 1: spawn the initial workers */
-#define IORA_LOOP_ThreadPool_ctor_1 IORA_LC( \
-  __CPROVER_assigns(i, TP_LOOP_ENV_ASSIGNS, LIN0, G_acquired) \
-  __CPROVER_loop_invariant(i <= workerCount && TP_LOOP_ENV_INV && ME.active == 0 && ME.busy == 0) \
-  __CPROVER_decreases(workerCount - i))
+#define TP_LOOP_ENV_ASSIGNS TP_SHARED_BY_ENV, self->_mutex.held, ME, LIN, G_rel_hi
+#define TP_LOOP_ENV_INV (!self->_mutex.held && !self->_configMutex.held && TP_GUARDS_OK && TP_INV(self) && TP_NOWRAP(self))
 /* drain() loop 1 / shutdown() loops 1, 2: the same polling loop as phase 3 */
 #define IORA_LOOP_ThreadPool_drain_wait_1 IORA_LC( \
   __CPROVER_assigns(waitMs, finalActiveCount, finalPendingCount, TP_LOOP_ENV_ASSIGNS) \
@@ -189,8 +210,25 @@ static inline void tp_handler_call(ThreadPool *p, iora_handler h) { (void)h; IOR
   __CPROVER_loop_invariant(0 <= raceWaitMs && raceWaitMs <= raceMaxWaitMs && raceWaitMs % 50 == 0 && TP_LOOP_ENV_INV && G_acquired) \
   __CPROVER_decreases(raceMaxWaitMs - raceWaitMs))
 
+/* shutdownPhase4_JoinThreads loop 1: take-one-and-join loop (no variant: other threads may keep adding workers; see NOTES.md);
+ * loop 2: one traversal of the map, looking for the first joinable entry */
+#define IORA_LOOP_ThreadPool_shutdownPhase4_JoinThreads_1 IORA_LC( \
+  __CPROVER_assigns(joinCount, TP_LOOP_ENV_ASSIGNS, LIN0, G_acquired, G_wpos, G_last_joinable, G_thread_budget, JN) \
+  __CPROVER_loop_invariant(TP_LOOP_ENV_INV && 0 <= joinCount && joinCount <= (1 << 29) && 0 <= G_thread_budget && G_thread_budget <= (1 << 29) && joinCount + G_thread_budget <= (1 << 29)) \
+  __CPROVER_loop_invariant(JN.erased == joinCount && 0 <= JN.erased && JN.erased <= (1 << 29) && 0 <= JN.joined && JN.joined <= JN.erased && 0 <= JN.detached && JN.detached <= JN.erased && JN.erased == JN.joined + JN.detached \
+      && (mode != ShutdownMode_DETACHED ==> JN.detached == 0)))
+#define IORA_LOOP_ThreadPool_shutdownPhase4_JoinThreads_2 IORA_LC( \
+  __CPROVER_assigns(it, found, movedThread, threadId, G_last_joinable, self->_threads, G_wpos, G_thread_budget, JN) \
+  __CPROVER_loop_invariant(it.idx <= self->_threads.n && !found && self->_mutex.held && TP_GUARDS_OK) \
+  __CPROVER_loop_invariant(self->_threads.n == __CPROVER_loop_entry(self->_threads.n) && self->_threads.has_self == __CPROVER_loop_entry(self->_threads.has_self) \
+      && self->_threads.self_joinable == __CPROVER_loop_entry(self->_threads.self_joinable) && G_wpos == __CPROVER_loop_entry(G_wpos) && G_thread_budget == __CPROVER_loop_entry(G_thread_budget)) \
+  __CPROVER_loop_invariant(JN.erased == __CPROVER_loop_entry(JN.erased) && JN.joined == __CPROVER_loop_entry(JN.joined) && JN.detached == __CPROVER_loop_entry(JN.detached) \
+      && JN.witness_joined == __CPROVER_loop_entry(JN.witness_joined)) \
+  __CPROVER_loop_invariant((self->_threads.has_self && G_wpos < it.idx) ==> !self->_threads.self_joinable) \
+  __CPROVER_decreases(self->_threads.n - it.idx))
+
 /* shutdownPhase3_DrainTasks loop 1: the polling loop */
 #define IORA_LOOP_ThreadPool_shutdownPhase3_DrainTasks_1 IORA_LC( \
-  __CPROVER_assigns(waitMs, TP_SHARED_BY_ENV, self->_mutex.held, LIN, LIN0, G_acquired, G_rel_hi) \
-  __CPROVER_loop_invariant(0 <= waitMs && waitMs <= maxWaitMs && waitMs % 50 == 0 && !self->_mutex.held && TP_INV(self) && TP_NOWRAP(self)) \
+  __CPROVER_assigns(waitMs, TP_LOOP_ENV_ASSIGNS, LIN0, G_acquired) \
+  __CPROVER_loop_invariant(0 <= waitMs && waitMs <= maxWaitMs && waitMs % 50 == 0 && TP_LOOP_ENV_INV) \
   __CPROVER_decreases(maxWaitMs - waitMs))
